@@ -128,6 +128,9 @@ static void op_c12_cmd(Exec& x, const Json& op, int)
 				}
 			} else if (data) {
 				ok = fixed_files.count(p) != 0;
+				// another name (hard link) of a file that fix reports
+				if (!ok && after.count(p) && after.at(p).type == 'f')
+					for (auto& ff : fixed_files) { auto it = after.find(ff); if (it != after.end() && it->second.type == 'f' && it->second.vino == after.at(p).vino) ok = true; }
 				// directories created on the way to a restored file
 				if (!ok && kv.second == "added" && after.at(p).type == 'd') {
 					for (auto& f : fixed_files) if (starts_with(f, p + "/")) ok = true;
@@ -175,11 +178,15 @@ static RunPlan gen_footprint(uint64_t seed, int tier)
 		case 8: s.cmd = "scrub"; s.opts = { "-p", rng.chance(1, 2) ? "full" : rng.chance(1, 2) ? "new" : "bad" }; break;
 		case 9: s.cmd = "touch"; break;
 		case 10: s.cmd = p.cfg.pool ? "pool" : "status"; break;
-		case 11: s.cmd = "fix"; if (rng.chance(1, 3)) s.opts = { "-m" }; else if (rng.chance(1, 3)) s.opts = { "-e" }; else if (rng.chance(1, 3)) s.opts = { "-f", "dir/" }; else if (rng.chance(1, 3)) s.opts = { "-d", Config::level_name((int)rng.below(p.cfg.np), false) }; break;
+		case 11: s.cmd = "fix";
+			if (rng.chance(1, 3)) { s.opts = { "-B", strf("%d", (int)rng.range(1, 6)) }; if (rng.chance(1, 2)) { s.opts.push_back("-S"); s.opts.push_back(strf("%d", (int)rng.range(0, 4))); } break; }
+			if (rng.chance(1, 3)) s.opts = { "-m" }; else if (rng.chance(1, 3)) s.opts = { "-e" }; else if (rng.chance(1, 3)) s.opts = { "-f", "dir/" }; else if (rng.chance(1, 3)) s.opts = { "-d", Config::level_name((int)rng.below(p.cfg.np), false) }; break;
 		case 12: s = gen_sync_variant(rng, p.cfg); break;
 		default: s.cmd = "rehash"; break;
 		}
 		s = gen_sched(rng, s);
+		// commands that end early (graceful stop at some I/O) have the same footprint rules
+		if ((s.cmd == "fix" || s.cmd == "sync" || s.cmd == "scrub" || s.cmd == "check") && rng.chance(1, 5)) { s.sig_at_io = (unsigned)rng.range(1, 12); s.sig_no = rng.chance(1, 2) ? 2 : 15; }
 		p.ops.push_back(Json::obj().set("k", "c12_cmd").set("spec", s.to_json()).set("damaged", damaged ? 1 : 0));
 		if (rng.chance(1, 5)) for (auto& o : gen_mutations(rng, p.cfg, 2)) p.ops.push_back(o);
 	}
